@@ -129,6 +129,20 @@ def has_greedy(a):
     return any(ge(e) for _, al in a["rules"] for es, _ in al for e in es)
 
 
+def greedy_elem_starts_empty(a):
+    """some greedy repetition (x*! / x+!) has a group element one of whose alternatives begins with an
+    optional or starred item: the element can start with an empty match"""
+    def ge(e):
+        if e[0] == "grp":
+            if e[2] in (2, 3) and e[3]:
+                for es, _ in e[1]:
+                    if es and es[0][2] in (1, 2):
+                        return True
+            return any(ge(x) for es, _ in e[1] for x in es)
+        return False
+    return any(ge(e) for _, al in a["rules"] for es, _ in al for e in es)
+
+
 def has_assoc_meta(a):
     """an explicit associativity or priority on some alternative (group alternatives included)"""
     def gm(alts):
@@ -1224,6 +1238,13 @@ def run(ctx):
                                 finding("KF-C13-greedy-not-maximal",
                                         "greedy repetition whose element can start with an empty match: GLR "
                                         "returns non-maximal trees too (e.g. %s on %r)"
+                                        % (" ".join(rec["text_s"].split())[:70], w))
+                            elif want not in msort(s[1]) and greedy_elem_starts_empty(a) and ng and ng[0] == "ok" \
+                                    and msort(ng[1]) == pool_e:
+                                # (the results returned are results of the expansion: checked above)
+                                finding("KF-C13-greedy-empty-start-loses-maximal",
+                                        "greedy repetition whose element can start with an empty match: the "
+                                        "maximal-munch result is not returned at all (e.g. %s on %r)"
                                         % (" ".join(rec["text_s"].split())[:70], w))
                             elif excused:
                                 finding(excused, "language/results differ from the documented expansion")
